@@ -69,6 +69,40 @@ class _Canon(ast.NodeTransformer):
         self.generic_visit(n)
         return n
 
+    @staticmethod
+    def _truth(t):
+        """`len(x) != 0`, `len(x) > 0`, `len(x) >= 1`, `len(x)` in a boolean position -> `x`; `len(x) == 0` -> `not x`"""
+        if isinstance(t, ast.Call) and isinstance(t.func, ast.Name) and t.func.id == "len" and len(t.args) == 1 and not t.keywords:
+            return t.args[0]
+        if isinstance(t, ast.Compare) and len(t.ops) == 1 and isinstance(t.left, ast.Call) and isinstance(t.left.func, ast.Name) \
+                and t.left.func.id == "len" and len(t.left.args) == 1 and isinstance(t.comparators[0], ast.Constant):
+            k, op = t.comparators[0].value, t.ops[0]
+            if (isinstance(op, (ast.NotEq, ast.Gt)) and k == 0) or (isinstance(op, ast.GtE) and k == 1):
+                return t.left.args[0]
+            if (isinstance(op, ast.Eq) and k == 0) or (isinstance(op, ast.Lt) and k == 1):
+                return ast.UnaryOp(op=ast.Not(), operand=t.left.args[0])
+        return t
+
+    def visit_While(self, n: ast.While):
+        self.generic_visit(n)
+        n.test = self._truth(n.test)
+        return n
+
+    def visit_If(self, n: ast.If):
+        self.generic_visit(n)
+        n.test = self._truth(n.test)
+        return n
+
+    def visit_For(self, n: ast.For):
+        self.generic_visit(n)
+        # `for x in it: seq.append(e)`  ==  `seq.extend(e for x in it)`
+        if len(n.body) == 1 and not n.orelse and isinstance(n.body[0], ast.Expr) and isinstance(n.body[0].value, ast.Call):
+            c = n.body[0].value
+            if isinstance(c.func, ast.Attribute) and c.func.attr == "append" and len(c.args) == 1 and not c.keywords:
+                gen = ast.GeneratorExp(elt=c.args[0], generators=[ast.comprehension(target=n.target, iter=n.iter, ifs=[], is_async=0)])
+                return ast.Expr(value=ast.Call(func=ast.Attribute(value=c.func.value, attr="extend", ctx=ast.Load()), args=[gen], keywords=[]))
+        return n
+
     def visit_Slice(self, n: ast.Slice):
         self.generic_visit(n)
         lo = None if (isinstance(n.lower, ast.Constant) and n.lower.value == 0) else n.lower
@@ -83,6 +117,16 @@ class _Canon(ast.NodeTransformer):
 
     def visit_Call(self, n: ast.Call):
         self.generic_visit(n)
+        # dict(zip(a, range(len(a))))  ==  {k: i for i, k in enumerate(a)}
+        if isinstance(n.func, ast.Name) and n.func.id == "dict" and len(n.args) == 1 and not n.keywords and isinstance(n.args[0], ast.Call) \
+                and isinstance(n.args[0].func, ast.Name) and n.args[0].func.id == "zip" and len(n.args[0].args) == 2:
+            ks, vs = n.args[0].args
+            if isinstance(vs, ast.Call) and isinstance(vs.func, ast.Name) and vs.func.id == "range" and len(vs.args) == 1 \
+                    and isinstance(vs.args[0], ast.Call) and isinstance(vs.args[0].func, ast.Name) and vs.args[0].func.id == "len" \
+                    and len(vs.args[0].args) == 1 and ast.dump(vs.args[0].args[0]) == ast.dump(ks):
+                return ast.DictComp(key=ast.Name(id="_k", ctx=ast.Load()), value=ast.Name(id="_i", ctx=ast.Load()),
+                                    generators=[ast.comprehension(target=ast.Tuple(elts=[ast.Name(id="_i", ctx=ast.Store()), ast.Name(id="_k", ctx=ast.Store())], ctx=ast.Store()),
+                                                                  iter=ast.Call(func=ast.Name(id="enumerate", ctx=ast.Load()), args=[ks], keywords=[]), ifs=[], is_async=0)])
         # np.min(x, axis=0) and x.min(axis=0) are the same reduction
         if isinstance(n.func, ast.Attribute) and isinstance(n.func.value, ast.Name) and n.func.value.id in ("np", "numpy") \
                 and n.func.attr in _REDUCTIONS and n.args and not isinstance(n.args[0], (ast.List, ast.Tuple, ast.ListComp, ast.GeneratorExp, ast.Starred)):
@@ -115,8 +159,20 @@ def canon(n: ast.AST) -> ast.AST:
 _IGNORED_STR_CALLS = ("warn", "warning", "error", "info", "debug")
 
 
+_CTX = {"count": 0}
+
+
 def _diff(a, b, names: dict, rnames: dict, out: list, in_msg=False) -> bool:
     """False if the skeletons differ.  Leaf differences are appended to out."""
+    if (isinstance(a, ast.Call) and _is_count(a)) or (isinstance(a, ast.Attribute) and a.attr in ("shape", "size")):
+        if not getattr(a, "_cnt", False):
+            a._cnt = True
+            _CTX["count"] += 1
+            try:
+                return _diff(a, b, names, rnames, out, in_msg)
+            finally:
+                _CTX["count"] -= 1
+                a._cnt = False
     if isinstance(b, ast.Name) and b.id.startswith("_any"):
         return True  # wildcard in the expected form: anything may stand here
     if type(a) is not type(b):
@@ -142,7 +198,8 @@ def _diff(a, b, names: dict, rnames: dict, out: list, in_msg=False) -> bool:
         # the repository cannot play two roles of the rule, but two names may share a role (a refactoring
         # that splits a re-bound variable into two)
         if names.get(a.id, b.id) != b.id:
-            out.append(("name", a.id, b.id))
+            # parallel arrays have the same length: another name inside len(.) / .shape is no evidence of a difference
+            out.append(("name-in-count" if _CTX["count"] else "name", a.id, b.id))
         names.setdefault(a.id, b.id)
         rnames.setdefault(b.id, a.id)
         return True
@@ -320,6 +377,8 @@ def compare(actual: Union[ast.AST, str, None], expected: Union[ast.AST, str], fi
         rnames.setdefault(g, g)
     if not _diff(a, b, names, rnames, out):
         return OTHER, []
+    if any(k == "name-in-count" for k, _, _ in out):
+        return OTHER, []
     return (SAME if not out else LEAF), out
 
 
@@ -358,12 +417,114 @@ def find(stmts: Iterable[ast.AST], accepted: Iterable[Union[str, ast.AST]], fixe
     return OTHER, None, []
 
 
+_IMPURE = {"pop", "popleft", "next", "read", "readline", "append", "extend", "add", "remove", "send", "sample", "random", "choice", "shuffle"}
+
+
+def _temps(stmts) -> dict:
+    """local names with exactly one plain assignment whose value can be re-evaluated at the point of use
+    (no consuming / mutating / random call): name -> value"""
+    defs: dict = {}
+    bad = set()
+    for s in stmts:
+        for n in ast.walk(s):
+            if isinstance(n, (ast.Assign, ast.AnnAssign)) and getattr(n, "value", None) is not None:
+                tgts = n.targets if isinstance(n, ast.Assign) else [n.target]
+                for t in tgts:
+                    if isinstance(t, ast.Name):
+                        defs.setdefault(t.id, []).append(n.value)
+                    elif isinstance(t, (ast.Subscript, ast.Attribute)):
+                        b = t
+                        while isinstance(b, (ast.Subscript, ast.Attribute)):
+                            b = b.value
+                        if isinstance(b, ast.Name):
+                            bad.add(b.id)   # stored into: a container, not a temporary
+                    elif isinstance(t, (ast.Tuple, ast.List)):
+                        if isinstance(n.value, (ast.Tuple, ast.List)) and len(n.value.elts) == len(t.elts):
+                            for tt, vv in zip(t.elts, n.value.elts):
+                                if isinstance(tt, ast.Name):
+                                    defs.setdefault(tt.id, []).append(vv)
+                                else:
+                                    bad |= {x.id for x in ast.walk(tt) if isinstance(x, ast.Name)}
+                        else:
+                            bad |= {x.id for x in ast.walk(t) if isinstance(x, ast.Name)}
+            elif isinstance(n, ast.AugAssign):
+                # the object is changed in place: not a temporary
+                t = n.target
+                while isinstance(t, (ast.Subscript, ast.Attribute)):
+                    t = t.value
+                if isinstance(t, ast.Name):
+                    bad.add(t.id)
+            elif isinstance(n, ast.Call) and isinstance(n.func, ast.Attribute) and isinstance(n.func.value, ast.Name) and \
+                    n.func.attr in (_IMPURE | {"update", "insert", "clear", "sort", "reverse", "setdefault", "discard", "fill", "put", "resize"}):
+                bad.add(n.func.value.id)
+            elif isinstance(n, (ast.For, ast.comprehension)):
+                bad |= {x.id for x in ast.walk(n.target) if isinstance(x, ast.Name)}
+            elif isinstance(n, ast.NamedExpr):
+                bad.add(n.target.id)
+            elif isinstance(n, (ast.With,)):
+                for it in n.items:
+                    if it.optional_vars is not None:
+                        bad |= {x.id for x in ast.walk(it.optional_vars) if isinstance(x, ast.Name)}
+            elif isinstance(n, (ast.FunctionDef, ast.Lambda)):
+                a = n.args
+                bad |= {x.arg for x in a.args + a.posonlyargs + a.kwonlyargs}
+    out = {}
+    for k, vs in defs.items():
+        if k in bad or len(vs) != 1:
+            continue
+        v = vs[0]
+        if any(isinstance(x, (ast.Yield, ast.YieldFrom, ast.Await, ast.NamedExpr)) for x in ast.walk(v)):
+            continue
+        if any(isinstance(x, ast.Call) and ((isinstance(x.func, ast.Attribute) and x.func.attr in _IMPURE) or
+                                            (isinstance(x.func, ast.Name) and x.func.id in _IMPURE)) for x in ast.walk(v)):
+            continue
+        if any(isinstance(x, ast.Name) and x.id == k for x in ast.walk(v)):
+            continue
+        out[k] = v
+    return out
+
+
+class _Inline(ast.NodeTransformer):
+    def __init__(self, temps, depth=4, skip=()):
+        self.temps, self.depth, self.skip, self.hit = temps, depth, set(skip), False
+
+    def visit_Name(self, n: ast.Name):
+        if isinstance(n.ctx, ast.Load) and n.id in self.temps and n.id not in self.skip and self.depth > 0:
+            import copy
+            self.hit = True
+            sub = _Inline(self.temps, self.depth - 1, self.skip | {n.id})
+            return sub.visit(copy.deepcopy(self.temps[n.id]))
+        return n
+
+
+def inlined(n: ast.AST, temps: dict):
+    """n with every temporary replaced by its value (None when nothing was replaced).  An assignment to a temporary
+    itself keeps its target."""
+    import copy
+    if not temps:
+        return None
+    m = copy.deepcopy(n)
+    tr = _Inline(temps)
+    m = tr.visit(m)
+    return ast.fix_missing_locations(m) if tr.hit else None
+
+
+def _split_tuple_assign(n) -> list:
+    if isinstance(n, ast.Assign) and len(n.targets) == 1 and isinstance(n.targets[0], (ast.Tuple, ast.List)) \
+            and isinstance(n.value, (ast.Tuple, ast.List)) and len(n.value.elts) == len(n.targets[0].elts) >= 2:
+        return [ast.fix_missing_locations(ast.Assign(targets=[t], value=v, lineno=getattr(n, "lineno", 1), col_offset=0))
+                for t, v in zip(n.targets[0].elts, n.value.elts)]
+    return []
+
+
 def find_group(stmts: Iterable[ast.AST], expected: list, fixed_names: Iterable[str] = ()):
     """Match several expected statements against the statements of one def under ONE renaming of
     the local names (so `params[child] = cur` is not satisfied by `params[child] = pre` when
     `cur`/`pre` are pinned by the other statements).  Each expected entry is a source string or a
     list of alternative spellings.  -> [(SAME|LEAF|OTHER, node|None, diffs)] in the order given."""
+    stmts = list(stmts)
     nodes = [n for s in stmts for n in ast.walk(s) if isinstance(n, (ast.stmt, ast.expr))]
+    temps = _temps(stmts)
     names = {n: n for n in fixed_names}
     rnames = {n: n for n in fixed_names}
     for g in _GLOBALS:
@@ -372,9 +533,25 @@ def find_group(stmts: Iterable[ast.AST], expected: list, fixed_names: Iterable[s
     results = [None] * len(expected)
     alts = [[canon(_parse(x)) for x in ([e] if isinstance(e, str) else e)] for e in expected]
     alts = [[(x.value if isinstance(x, ast.Expr) else x) for x in a] for a in alts]
+    # the rule's own temporaries (`c = tree.node(node1)` among the expected statements) may have been written out in
+    # the repository, and the repository's temporaries may be written out in the rule: both sides also in inlined form
+    etemps = _temps([x for a in alts for x in a[:1] if isinstance(x, ast.stmt)])
+    for a in alts:
+        for x in list(a):
+            y = inlined(x, etemps)
+            if y is not None:
+                a.append(canon(y))
     # first pass: exact matches fix the renaming; statements with the most names first
     order = sorted(range(len(expected)), key=lambda i: -max(leaves(x) for x in alts[i]))
     canon_nodes = [(n, canon(n)) for n in nodes]
+    for n in [x for x in nodes if isinstance(x, ast.stmt)]:
+        y = inlined(n, temps)
+        if y is not None:
+            canon_nodes.append((n, canon(y)))
+    # `a, b = x, y` also counts as `a = x` and `b = y`
+    for n, cn in list(canon_nodes):
+        for part in _split_tuple_assign(cn):
+            canon_nodes.append((n, part))
     for i in order:
         best_c = None
         for n, cn in canon_nodes:
@@ -402,10 +579,56 @@ def find_group(stmts: Iterable[ast.AST], expected: list, fixed_names: Iterable[s
             for b in alts[i]:
                 nm, rn, out = dict(names), dict(rnames), []
                 a = cn.value if isinstance(cn, ast.Expr) else cn
-                if _diff(a, b, nm, rn, out) and out and len(out) <= 2 and len(out) * 3 <= leaves(n):
+                if _diff(a, b, nm, rn, out) and out and len(out) <= 2 and len(out) * 3 <= leaves(n) \
+                        and not any(k == "name-in-count" for k, _, _ in out):
                     if cand is None or len(out) < len(cand[1]):
                         cand = (n, out)
         results[i] = (LEAF, cand[0], cand[1]) if cand is not None else (OTHER, None, [])
+    # an expected `a, b = x, y` written as two statements in the repository
+    for i in range(len(expected)):
+        if results[i][0] != OTHER:
+            continue
+        for b in alts[i]:
+            parts = _split_tuple_assign(b)
+            if not parts:
+                continue
+            nm, rn, first, ok = dict(names), dict(rnames), None, True
+            for part in parts:
+                got = None
+                for n, cn in canon_nodes:
+                    n2, r2, out = dict(nm), dict(rn), []
+                    a = cn.value if isinstance(cn, ast.Expr) else cn
+                    if isinstance(a, ast.Assign) and _diff(a, part, n2, r2, out) and not out:
+                        got = (n, n2, r2)
+                        break
+                if got is None:
+                    ok = False
+                    break
+                first = first or got[0]
+                nm, rn = got[1], got[2]
+            if ok:
+                results[i] = (SAME, first, [])
+                names, rnames = nm, rn
+                break
+    # an expected temporary (`c = tree.node(node1)`) that the repository does not name: satisfied when its value occurs,
+    # written out, in an expression of the repository under the renaming found
+    for i in range(len(expected)):
+        if results[i][0] != OTHER:
+            continue
+        for b in alts[i]:
+            if isinstance(b, ast.Assign) and len(b.targets) == 1 and isinstance(b.targets[0], ast.Name) and b.targets[0].id in etemps \
+                    and leaves(b.value) >= 3 and b.targets[0].id not in rnames:
+                hit = None
+                for n, cn in canon_nodes:
+                    if isinstance(n, ast.expr):
+                        nm, rn, out = dict(names), dict(rnames), []
+                        if _diff(cn, b.value, nm, rn, out) and not out:
+                            hit = (n, nm, rn)
+                            break
+                if hit is not None:
+                    results[i] = (SAME, hit[0], [])
+                    names, rnames = hit[1], hit[2]
+                    break
     return results
 
 
